@@ -143,7 +143,11 @@ CHECKS = {
   tech="Lean 4 proof (inductive invariant: barrier; phase theorem + decide counter-examples for shutdown) + "
        "virtual-time differential + barrier monitor + shutdown hang detector", ref="§7 Buffer"),
  "C08": dict(
-  text="Lean theorems about the same machine and invariant: C08_serial_nonempty(_prefix) (over the whole output "
+  text="Lean theorems about the same machine: C08_quiet_period(_prefix) (for immediately available arguments, no forced "
+       "flush and timeout T > 0: whenever the wrapped function is called, at instant t, no submission lies strictly "
+       "inside (t - T, t) - any function durations, failing calls and retries - from the invariant Q of Buffer/Quiet.lean, "
+       "which uses that inputs only arrive when the daemon is at rest: settle reaches a fixpoint within 5 zero-time "
+       "steps), C08_serial_nonempty(_prefix) (over the whole output "
        "stream of every program without shutdown the start/fin records of the wrapped function strictly alternate, "
        "a call is in flight exactly when the daemon is inside it, and no call ever received an empty set) and the "
        "step theorem C08_never_empty; debounce timing (no call while arrivals are < timeout apart, one call at last "
@@ -151,10 +155,10 @@ CHECKS = {
        "every call's instant and contents over arrival grids straddling the timeout, with a quiet-period / burst "
        "monitor (no call inside a quiet period, call at last arrival + timeout, burst not split, burst not offered "
        "again after its call succeeded; ties excluded)",
-  note=NOTE_COMMON + "Partial: the quiet-period and burst-timing clauses are decided by the differential + monitor, "
-       "not yet by theorems.",
-  tech="Lean 4 proof (inductive invariant: serial, non-empty calls) + virtual-time differential on call instants + "
-       "quiet-period monitor", ref="§7 Buffer"),
+  note=NOTE_COMMON + "Partial: 'the call starts exactly timeout after the last arrival of the burst' and 'the burst is "
+       "delivered together' are decided by the differential + monitor, not yet by theorems.",
+  tech="Lean 4 proof (timed inductive invariants: quiet period, serial, non-empty calls) + virtual-time differential "
+       "on call instants + burst monitor", ref="§7 Buffer"),
  "C12": dict(
   text="Lean refinement proof: the sequential FileLock model (in-process Lock/RLock, nesting counter, one open file "
        "description per acquisition, polling loop in virtual time, clean-up paths; after fixes F3/F9) refines the "
